@@ -351,3 +351,5 @@ PROP = Prop(
                  "entries are asserted only where the divisor is defined",
                  "row order of the result is not claimed, rows are matched by label"],
 )
+
+RULE_EXTRA = ('group columns held by the frame in reversed order; uint8 / float32 score columns.')
